@@ -86,6 +86,8 @@ Proof.
   - rewrite <- zat_mul_u64_exact; [exact R | assumption | unfold in_u64, in_range in *; lia].
   - rewrite <- zat_mul_usize_exact; [exact R | assumption | unfold in_u64, in_range, usize_max in *; lia].
   - rewrite <- zat_sum_spec; [exact R|]. eapply forallb_Forall; [|exact W]. exact vzat_P.
+  - rewrite <- zat_sum_spec; [exact R|]. apply Forall_forall. intros x Hx. apply repeat_spec in Hx. subst x. exact W.
+  - rewrite <- zb_sum_spec; [exact R|]. apply Forall_forall. intros x Hx. apply repeat_spec in Hx. subst x. exact W.
   - destruct (zat_div_exact a d) as [E V]; [assumption | lia |]. rewrite E in R. rewrite R. apply P_vzat in V. rewrite V. reflexivity.
   - pose proof (zat_div_rem_exact a d ltac:(assumption) ltac:(lia)) as Hd.
     destruct o as [[q r]| |]; cbn in R; try discriminate.
